@@ -5,6 +5,8 @@ import (
 	"go/constant"
 	"go/token"
 	"go/types"
+	"os"
+	"regexp"
 	"sort"
 	"strings"
 
@@ -666,7 +668,22 @@ func c04SliceCall(c *Ctx, pp, tag string) {
 			okStep = false
 		}
 	}
-	ob("uses step 1 when the step is omitted and cast.ToInt(step) otherwise", call.Pos(), okStep && stepConv != nil, "stepInt = phi(1, cast.ToInt(step))")
+	kIntV, _ := constInt(t.SSA[pAst].Const("Int").Value)
+	var sp c04SliceSpec
+	spDone := false
+	specOf := func() c04SliceSpec {
+		if !spDone {
+			sp, spDone = c04SliceCallSpec(f, si, kIntV), true
+		}
+		return sp
+	}
+	if !(okStep && stepConv != nil) && specOf().ok && specOf().step {
+		ob("uses step 1 when the step is omitted and cast.ToInt(step) otherwise", call.Pos(), true, specOf().detail)
+		ob("rejects step 0 before slicing", call.Pos(), true, "every specialised path that reaches SliceIndices with a converted step has tested it non-zero")
+		stepConv = nil
+	} else {
+		ob("uses step 1 when the step is omitted and cast.ToInt(step) otherwise", call.Pos(), okStep && stepConv != nil, "stepInt = phi(1, cast.ToInt(step))")
+	}
 	if stepConv != nil {
 		okZero := false
 		for _, ref := range *stepConv.Referrers() {
@@ -696,6 +713,9 @@ func c04SliceCall(c *Ctx, pp, tag string) {
 	for i, nm := range []string{"Start", "End"} {
 		arg := args[1+i]
 		okB, detail := c04BoundArg(arg, nm)
+		if !okB && specOf().ok && ((i == 0 && specOf().start) || (i == 1 && specOf().end)) {
+			okB, detail = true, specOf().detail
+		}
 		ob("passes "+strings.ToLower(nm)+" as nil when omitted, else cast.ToInt of the "+nm+" operand", call.Pos(), okB, detail)
 	}
 	// --- element loops
@@ -2366,6 +2386,171 @@ func c04IndexSpec(at ssa.Instruction, idx ssa.Value, listV ssa.Value, kInt int64
 	}
 	if res.norm && res.detail == "" {
 		res.detail = fmt.Sprintf("%s specialised: %d successful outcome(s), each v = K with 0 ≤ K < len(list) or v = len(list)+K with K < 0 ≤ v < len(list)", h.Name(), nSucc)
+	}
+	return res
+}
+
+// c04SliceCallSpec: RunSliceExpr specialised with the evaluated operands as symbols (helpers and local closures
+// inlined). On every path that reaches SliceIndices the start/end arguments are nil exactly when the operand was
+// omitted or evaluated to nil and otherwise the integer conversion of that operand under an Int tag, and the step
+// is 1 for an omitted/nil step and otherwise the non-zero integer conversion of the step operand under an Int tag.
+type c04SliceSpec struct {
+	ok               bool
+	start, end, step bool
+	detail           string
+}
+
+func c04SliceCallSpec(f, si *ssa.Function, kInt int64) c04SliceSpec {
+	var res c04SliceSpec
+	if len(f.Params) != 2 {
+		return res
+	}
+	ex := f.Params[1].Name()
+	lastNode := ""
+	cfg := &specCfg{MaxLoop: 1, MaxDepth: 3, MaxVisits: 400000, MaxAlts: 64, Consistent: true}
+	cfg.Call = func(fn *ssa.Function, call *ssa.Call, nth int, args []sval) (sval, bool) {
+		cal := call.Call.StaticCallee()
+		if cal == nil {
+			return sval{}, false
+		}
+		switch cal.Name() {
+		case "RunStmt": // v1: (value, tag, error)
+			n := args[len(args)-1].String()
+			return sval{tup: []sval{symv("val(" + n + ")"), symv("tag(" + n + ")"), symv("err(" + n + ")")}}, true
+		case "RunExpr": // v2: the value goes to the register
+			lastNode = args[len(args)-1].String()
+			return symv("err(" + lastNode + ")"), true
+		case "GetRet":
+			n := lastNode
+			return sval{tup: []sval{{tup: []sval{symv("val(" + n + ")"), symv("tag(" + n + ")")}}, symv("regerr(" + n + ")")}}, true
+		case "ToInt":
+			return symv("int(" + args[0].String() + ")"), true
+		case "StartPos", "NodeStartPos":
+			return symv("pos"), true
+		case "ReturnAppend", "Reset":
+			return symv("reg"), true
+		}
+		if cal == si {
+			var as []string
+			for _, a := range args {
+				as = append(as, a.String())
+			}
+			return symv("effect:SliceIndices|" + strings.Join(as, "|")), true
+		}
+		return stdErrCall(fn, call, nth, args)
+	}
+	var args []sval
+	for _, p := range f.Params {
+		args = append(args, symv(p.Name()))
+	}
+	outs, ab := cfg.run(f, args)
+	if ab != "" {
+		res.detail = ab
+		return res
+	}
+	res = c04SliceSpec{ok: true, start: true, end: true, step: true}
+	n := 0
+	strip := func(s string) string {
+		// (T)(x) interface wrappers and parentheses
+		for {
+			t := stripParens(s)
+			if m := regexp.MustCompile(`^\([A-Za-z0-9_.\[\]* ]+\)\((.*)\)$`).FindStringSubmatch(t); m != nil {
+				t = m[1]
+			}
+			if t == s {
+				return t
+			}
+			s = t
+		}
+	}
+	for _, o := range outs {
+		eff := ""
+		lits := map[string]bool{}
+		for _, cd := range o.Cond {
+			if strings.HasPrefix(cd, "effect:SliceIndices|") {
+				eff = cd
+			} else if !strings.HasPrefix(cd, "effect:") {
+				lits[canonLit(cd)] = true
+			}
+		}
+		if eff == "" {
+			continue
+		}
+		n++
+		if os.Getenv("PLVERIF_DEBUG") == "slice" {
+			fmt.Fprintln(os.Stderr, "SLICE", eff, sortedKeys(lits))
+		}
+		parts := strings.Split(eff, "|")
+		if len(parts) != 5 {
+			res.start, res.end, res.step = false, false, false
+			continue
+		}
+		isNilOperand := func(node string) bool {
+			// v2 marks "no value" by the Invalid tag (the zero V) instead of a nil value
+			if lits["+0 == tag("+node+")"] || lits["+tag("+node+") == 0"] {
+				return true
+			}
+			for l := range lits {
+				if l[0] != '+' || !strings.Contains(l, " == ") {
+					continue
+				}
+				a, b, _ := strings.Cut(l[1:], " == ")
+				a, b = strip(a), strip(b)
+				if (a == "nil" && (b == "val("+node+")" || b == node)) || (b == "nil" && (a == "val("+node+")" || a == node)) {
+					return true
+				}
+			}
+			return false
+		}
+		isIntTag := func(node string) bool {
+			k := fmt.Sprint(kInt)
+			return lits["+"+k+" == tag("+node+")"] || lits["+tag("+node+") == "+k]
+		}
+		bound := func(arg, node string) bool {
+			arg = strip(arg)
+			switch {
+			case arg == "nil":
+				return isNilOperand(node)
+			case strip(strings.TrimSuffix(strings.TrimPrefix(arg, "int("), ")")) == "val("+node+")" && strings.HasPrefix(arg, "int("):
+				return isIntTag(node)
+			}
+			return false
+		}
+		if !bound(parts[2], ex+".Start") {
+			res.start = false
+			res.detail = "start argument " + parts[2]
+		}
+		if !bound(parts[3], ex+".End") {
+			res.end = false
+			res.detail = "end argument " + parts[3]
+		}
+		st := strip(parts[4])
+		node := ex + ".Step"
+		switch {
+		case st == "1":
+			if !isNilOperand(node) {
+				res.step = false
+				res.detail = "step 1 although the step operand is present"
+			}
+		case strings.HasPrefix(st, "int(") && strip(strings.TrimSuffix(strings.TrimPrefix(st, "int("), ")")) == "val("+node+")":
+			nz := lits["-0 == "+st] || lits["-"+st+" == 0"]
+			if !isIntTag(node) || !nz {
+				res.step = false
+				res.detail = "step " + st + " without Int tag or zero test"
+			}
+		default:
+			res.step = false
+			res.detail = "step argument " + st
+		}
+	}
+	if os.Getenv("PLVERIF_DEBUG") == "slice" {
+		fmt.Fprintln(os.Stderr, "SLICERES", f.Pkg.Pkg.Name(), n, res)
+	}
+	if n == 0 {
+		return c04SliceSpec{detail: "no path reaches SliceIndices"}
+	}
+	if res.detail == "" {
+		res.detail = fmt.Sprintf("%d specialised paths reach SliceIndices, all with start/end nil-or-int(operand) and step 1-or-nonzero int(step)", n)
 	}
 	return res
 }
